@@ -185,11 +185,11 @@ def h_scatter(ctx):
     kw = {}
     if cfg.get("extra"):
         x = ctx.real("extra")
-        kw["extra_coords"] = x
+        kw["extra_coords"] = [x, ctx.real("extra_b")] if cfg["extra"] == 2 else x
     seed = cfg["seed"]
     c1 = vc.scatter_points((w, ee, s, nn), size, random_state=seed, **kw)
     c2 = vc.scatter_points((w, ee, s, nn), size, random_state=seed, **kw)
-    ctx.claim("easting, northing (+ extra) arrays of the requested size", And(len(c1) == 2 + (1 if cfg.get("extra") else 0), c1[0].shape == (size,), c1[1].shape == (size,)))
+    ctx.claim("easting, northing (+ extra) arrays of the requested size", And(len(c1) == 2 + (cfg.get("extra") or 0), all(np.shape(c) == (size,) for c in c1)))
     for i in range(size):
         ctx.claim("scatter point inside the region (easting)", And(le(w, c1[0][i]), le(c1[0][i], ee)))
         ctx.claim("scatter point inside the region (northing)", And(le(s, c1[1][i]), le(c1[1][i], nn)))
@@ -200,11 +200,15 @@ def h_scatter(ctx):
     if cfg.get("extra"):
         for v in c1[2]:
             ctx.claim("extra coordinate constant", eq(v, x))
-    try:
-        vc.scatter_points((ee + 1, ee, s, nn), size, random_state=seed)
-        ctx.claim("invalid region rejected by scatter_points", False)
-    except ValueError:
-        ctx.claim("invalid region rejected by scatter_points", True)
+        if cfg["extra"] == 2 and len(c1) == 4:
+            for v in c1[3]:
+                ctx.claim("second extra coordinate constant, in the order given", eq(v, kw["extra_coords"][1]))
+    for label, bad in (("W > E", (ee + 1, ee, s, nn)), ("S > N", (w, ee, nn + 1, nn)), ("three entries", (w, ee, s)), ("five entries", (w, ee, s, nn, nn))):
+        try:
+            vc.scatter_points(bad, size, random_state=seed)
+            ctx.claim("invalid region rejected by scatter_points: %s" % label, False)
+        except ValueError:
+            ctx.claim("invalid region rejected by scatter_points: %s" % label, True)
 
 
 def h_grid_inside(ctx):
@@ -347,7 +351,7 @@ def h_maxabs(ctx):
 
 
 def _cfg_shapes(tier, seed):
-    return [{"shape": s} for s in ([(2,), (1, 2), (2, 2)] if tier == "quick" else [(1,), (2,), (3,), (1, 2), (2, 1), (2, 2), (2, 3)])]
+    return [{"shape": s} for s in ([(2,), (1, 2), (2, 2), (1, 2, 1)] if tier == "quick" else [(1,), (2,), (3,), (1, 2), (2, 1), (2, 2), (2, 3), (1, 2, 1), (2, 1, 2)])]
 
 
 def _cfg_grid_inside(tier, seed):
@@ -384,7 +388,7 @@ HARNESSES = [
     Harness(
         "scatter_points",
         h_scatter,
-        lambda tier, seed: [{"size": n, "seed": sd, "extra": x} for n, sd, x in ([(2, 0, 0), (3, 7, 1)] if tier == "quick" else [(1, 0, 0), (2, 0, 0), (3, 7, 1), (5, seed, 0), (4, 123, 1)])],
+        lambda tier, seed: [{"size": n, "seed": sd, "extra": x} for n, sd, x in ([(2, 0, 0), (3, 7, 1), (2, 5, 2)] if tier == "quick" else [(1, 0, 0), (2, 0, 0), (3, 7, 1), (5, seed, 0), (4, 123, 1), (2, 5, 2)])],
         bounds="symbolic valid region, 1..5 points, RNG draws symbolic in [0,1)",
         extra_globals=_scatter_globals,
         stubs=["check_random_state -> StubRandomState (uniform contract)"],
